@@ -39,7 +39,7 @@ void harness(void) {
 '''
 
 def prepare(tier, vf):
-    gendir = os.path.join(vf.BUILD, "gen", "C15")
+    gendir = os.path.join(vf.BUILD, "gen", vf.tree_hash(), "C15")
     hdir = os.path.join(gendir, "h")
     os.makedirs(hdir, exist_ok=True)
     for f in os.listdir(hdir):
